@@ -7,6 +7,7 @@ import (
 	"os"
 	"os/exec"
 	"path/filepath"
+	"strings"
 
 	"verif/tgen"
 )
@@ -39,7 +40,25 @@ func main() {
 		os.Exit(2)
 	}
 	bin := filepath.Join(tgen.Scratch(), "childbin")
-	if out, err := m.Build(".", bin); err != nil {
+	var extra []string
+	if rw, ok := m.Files["REWRITE"]; ok {
+		// overlay-instrumented build: rewrite the listed packages of /repo onto vsched primitives
+		ov := filepath.Join(tgen.Scratch(), "overlay.json")
+		args := []string{"-repo", tgen.Repo(), "-verif", tgen.VerifDir(), "-out", filepath.Join(tgen.Scratch(), "rewritten"), "-overlay", ov}
+		args = append(args, strings.Fields(rw)...)
+		c := exec.Command(filepath.Join(tgen.Scratch(), "vrewrite"), args...)
+		c.Env = append(os.Environ(), "GOFLAGS=-mod=mod", "GOPROXY=off", "GOSUMDB=off", "GOTOOLCHAIN=local")
+		if out, err := c.CombinedOutput(); err != nil {
+			fmt.Fprintln(os.Stderr, string(out))
+			fmt.Fprintln(os.Stderr, "CHECK-ERROR: vrewrite failed:", err)
+			os.Exit(2)
+		}
+		extra = append(extra, "-overlay", ov)
+	}
+	if os.Getenv("VERIF_CHILD_RACE") == "1" {
+		extra = append(extra, "-race")
+	}
+	if out, err := m.Build(".", bin, extra...); err != nil {
 		fmt.Fprintln(os.Stderr, out)
 		fmt.Fprintln(os.Stderr, "CHECK-ERROR: child build failed:", err)
 		os.Exit(2)
